@@ -10,7 +10,7 @@ class Gen:
         self.size = size
         f = dict(phony=0.15, deps=0.5, restat=0.2, generator=0.05, pools=0.3, rsp=0.12, vals=0.2, multi=0.25,
                  subdirs=0.5, console=0.05, order_only=0.4, implicit=0.4, no_manifest_path=0.0,
-                 phony_file=0.0, msvc=0.2, depfile_only=0.25, chain=1.0, dyndep=0.15)
+                 phony_file=0.0, msvc=0.2, depfile_only=0.25, chain=1.0, dyndep=0.15, early=0.2)
         f.update(feat or {})
         self.f = f
 
@@ -102,6 +102,8 @@ class Gen:
                 st["restat"] = True
             elif self.p("generator"):
                 st["generator"] = True
+            if self.p("early"):
+                st["early"] = True      # starts writing its outputs (and depfile) in place as soon as it runs
             if sc["pools"] and self.p("pools"):
                 st["pool"] = r.choice(sorted(sc["pools"]))
             elif self.p("console"):
